@@ -62,20 +62,27 @@ def findOwner (wa : Bool) (idx : Index) (p : Bytes) : Option (Bytes × Art) :=
       | some a => some (sp, a)
       | none => findOwner wa r p
 
+/-- does some output of `stg` lie inside a directory output of the new stage `nw`?
+(the direction `Index.AddStage` checks only when `rev`, a regenerated fact, is true) -/
+def ownsExisting (wa : Bool) (idx : Index) (nw : Stage) : Bool :=
+  idx.any fun p => p.2.outputs.any fun a =>
+    (findArt nw.outputs a.path).isSome || (findDirOwner wa a.path nw.outputs).isSome
+
 /-- `Index.AddStage` -/
-def addStage (wa : Bool) (idx : Index) (sp : Bytes) (stg : Stage) : Except Err Index :=
+def addStage (wa rev : Bool) (idx : Index) (sp : Bytes) (stg : Stage) : Except Err Index :=
   if (alookup idx sp).isSome then .error .invalid
   else if stg.outputs.any (fun a => (findOwner wa idx a.path).isSome) then .error .owned
+  else if rev && ownsExisting wa idx stg then .error .owned
   else .ok (idx ++ [(sp, stg)])
 
 /-- `index.FromFile`: validate and add stage by stage in the order of the index file -/
-def loadIndex (wa : Bool) : List (Bytes × Stage) → Index → Except Err Index
+def loadIndex (wa rev : Bool) : List (Bytes × Stage) → Index → Except Err Index
   | [], idx => .ok idx
   | (sp, stg) :: r, idx =>
     if !stg.validate wa sp then .error .invalid
-    else match addStage wa idx sp stg with
+    else match addStage wa rev idx sp stg with
       | .error e => .error e
-      | .ok idx' => loadIndex wa r idx'
+      | .ok idx' => loadIndex wa rev r idx'
 
 def insertArt (a : Art) : List Art → List Art
   | [] => [a]
